@@ -1,6 +1,6 @@
 """C03: relative branches / rjmp / rcall at every distance across and beyond both range limits,
 forward and backward labels and pc-relative expressions, with code of both lengths, data, odd .db
-lines and .org gaps between instruction and target.  Oracle: independent spec (ENC) at the
+lines, strings that are not ASCII and .org gaps between instruction and target.  Oracle: independent spec (ENC) at the
 instruction's real address; the word is read from the image at that address."""
 import random
 from collections import Counter
@@ -15,7 +15,13 @@ def filler(rng, words, kind):
     out = []
     n = words
     while n > 0:
-        k = kind if kind != 'mix' else rng.choice(['nop', 'lds', 'dw', 'db', 'db3'])
+        k = kind if kind != 'mix' else rng.choice(['nop', 'lds', 'dw', 'db', 'db3', 'dbu'])
+        if k == 'dbu':
+            # strings that are not ASCII: the size is the number of BYTES (2, 3+pad, 7+pad, 6)
+            text, w = rng.choice([('.db "\u00e9"', 1), ('.db "\u20ac"', 2), ('.db "\u00f1and\u00fa"', 4), ('.db "\u65e5\u672c"', 3), ('.db 1, "\u00b5"', 2)])
+            if w <= n:
+                out.append(text); n -= w; continue
+            k = 'nop'
         if k == 'tlds':
             # reduced core (ATtiny20): lds/sts are ONE word
             out.append(rng.choice(['lds r%d, 0x%x', 'sts 0x%x, r%d']) % ((rng.randrange(16, 32), rng.randrange(0x40, 0xc0)) if rng.random() < .5 else (rng.randrange(0x40, 0xc0), rng.randrange(16, 32))) if False else
@@ -44,7 +50,7 @@ def cases(tier, seed):
         for d in ds:
             pre = '3, ' if mn in ('brbs', 'brbc') else ''
             pretok = ['v3'] if pre else []
-            kind = rng.choice(['nop', 'mix', 'mix', 'lds', 'dw', 'db', 'org'])
+            kind = rng.choice(['nop', 'mix', 'mix', 'lds', 'dw', 'db', 'org', 'dbu'])
             start = rng.choice([0, 0, 1, 5, 300])
             head = filler(rng, start, 'mix')
             tiny = lim == 64 and rng.random() < .2
@@ -81,6 +87,18 @@ def cases(tier, seed):
                     h2 = rng.choice([['.org %d' % start], head + ['.dseg', '.byte 2', '.cseg'], ['.dseg', 'v_c03: .byte 1', '.cseg', '.org %d' % start]])
                 lines = h2 + ['%s %s%s' % (mn, pre, expr.upper() if rng.random() < .3 else expr)]
                 out.append((mn, '\n'.join(lines), start, pretok + ['v%d' % (start + 1 + d)], d))
+            # the target through a `.set` symbol captured from `pc`: at the target's place (backward), or computed
+            # just before the instruction (any distance); the symbol holds the address of the place where it is set
+            if rng.random() < 0.5 and not tiny:
+                h2 = filler(rng, start, 'mix')
+                if d < 0 and rng.random() < .5:
+                    n = -d - 1
+                    lines = h2 + ['.set c03t = %s' % rng.choice(['pc', 'PC', 'pc + 0'])] + filler(rng, n, rng.choice(['nop', 'mix', 'lds'])) + ['%s %sc03t' % (mn, pre)]
+                    out.append((mn, '\n'.join(lines), start + n, pretok + ['v%d' % start], d))
+                else:
+                    off = d + 1
+                    lines = h2 + ['.set c03t = %s' % ('pc+%d' % off if off >= 0 else 'pc-%d' % -off), '%s %s%s' % (mn, pre, rng.choice(['c03t', 'C03T']))]
+                    out.append((mn, '\n'.join(lines), start, pretok + ['v%d' % (start + 1 + d)], d))
     # far targets: a distance that only fits after wrapping through 16 bits must be rejected
     for mn, lim in mns:
         pre = '3, ' if mn in ('brbs', 'brbc') else ''
@@ -128,7 +146,7 @@ def run(tier, seed, model_ok):
             vio.append({'what': 'oracle could not judge (harness bug)', 'source': c[1], 'impl': a[:100], 'expected': s, 'key': c[0]})
     return {
         'evaluations': len(cs), 'distinct_nontrivial': len({c[1] for c in cs}),
-        'rule': 'all 18 named branches + brbs/brbc + rjmp + rcall x distances within 70 of each range limit on both sides and around zero (rjmp/rcall thinned in the quick tier away from the limits), forward/backward labels with random filler (1- and 2-word instructions, .dw, odd .db lines, .org gaps; on ATtiny20 one-word lds/sts) at random start addresses, and pc-relative expressions in the middle of a section and as the first instruction after .org / after returning from .dseg; far targets (distances of 64 Ki, 128 Ki words and other values that fit only after wrapping) through pc expressions and .org gaps; distinct = distinct programs',
+        'rule': 'all 18 named branches + brbs/brbc + rjmp + rcall x distances within 70 of each range limit on both sides and around zero (rjmp/rcall thinned in the quick tier away from the limits), forward/backward labels with random filler (1- and 2-word instructions, .dw, odd .db lines, strings that are not ASCII, .org gaps; on ATtiny20 one-word lds/sts) at random start addresses, targets through .set symbols captured from pc (at the target, or computed before the instruction), and pc-relative expressions in the middle of a section and as the first instruction after .org / after returning from .dseg; far targets (distances of 64 Ki, 128 Ki words and other values that fit only after wrapping) through pc expressions and .org gaps; distinct = distinct programs',
         'samples': [cs[0][1], cs[len(cs) // 2][1]],
         'exhaustive': False,
         'distribution': {'reachable_targets': accepted, 'unreachable_targets': rejected, 'per_mnemonic': Counter(c[0] for c in cs).most_common(4)},
